@@ -1,7 +1,7 @@
 (* Lsm/CompactKeySpec.v — what readers observe of one key before and after a compaction, and the
    theorem statements about compact_key. *)
 From Coq Require Import List NArith Bool Sorted.
-From SKV Require Import Lsm.CompactKey Lsm.CompactKeyOld.
+From SKV Require Import Lsm.CompactKey Lsm.CompactKeyOld Lsm.CompactKeyMid.
 Import ListNotations.
 Local Open Scope N_scope.
 
@@ -136,9 +136,11 @@ Definition compact_key_history_deeper_any_stmt : Prop :=
     history_at (compact_key false true 0 now snaps vs ++ deep) s = history_at (vs ++ deep) s.
 
 (* finite retention: nothing erased comes back over this level and everything deeper, PROVIDED the
-   newest barrier the reader sees is still inside the retention window.  The proviso cannot be
-   dropped: an older hard delete outside the window is `superseded` and dropped, and the deeper
-   versions it erased reappear (compact_key_retention_barrier_lost_stmt). *)
+   newest barrier the reader sees is still inside the retention window.  For a hard delete that is
+   the newest barrier of the list the proviso is not needed (compact_key_history_deeper_hard_stmt);
+   in general it cannot be dropped: an older REPLACE outside the window is `superseded` and
+   dropped, and the deeper versions it erased reappear (compact_key_retention_barrier_lost_stmt,
+   compact_key_retention_replace_lost_stmt). *)
 Definition compact_key_history_deeper_retention_stmt : Prop :=
   forall (retention now : N) (snaps : list N) (vs deep : list ver) (s : N),
     lies_below vs deep -> asc snaps ->
@@ -161,3 +163,35 @@ Definition compact_key_old_history_deeper_fails_stmt : Prop :=
     lies_below vs deep /\ asc snaps /\ (In s snaps \/ top vs <= s) /\
     erases_deeper (compact_key_old false true 0 now snaps vs) s <> erases_deeper vs s /\
     history_deeper (compact_key_old false true 0 now snaps vs) deep s <> history_deeper vs deep s.
+
+(* finite retention, HARD-DELETE barriers, no window proviso (the decision with the `newer barrier`
+   accumulator, reset at every change of visibility boundary): for ANY retention and clock, when
+   the newest barrier a reader that can exist sees is a hard delete, nothing it erased comes back
+   over this level and everything deeper. *)
+Definition compact_key_history_deeper_hard_stmt : Prop :=
+  forall (retention now : N) (snaps : list N) (vs deep : list ver) (s : N) (b : ver),
+    lies_below vs deep -> asc snaps ->
+    (In s snaps \/ top vs <= s) ->
+    newest_barrier vs s = Some b -> is_hard (vkind b) = true ->
+    forall v, In v (history_deeper (compact_key false true retention now snaps vs) deep s) ->
+              In v (history_deeper vs deep s).
+
+(* the honest complement: REPLACE is not protected (the crate's pinned unit tests require an older
+   REPLACE outside the window to be dropped above the bottom level): same hypotheses with a replace
+   as the barrier — the newest barrier of the whole list, reader above everything — and a deeper
+   version comes back *)
+Definition compact_key_retention_replace_lost_stmt : Prop :=
+  exists (retention now : N) (snaps : list N) (vs deep : list ver) (s : N) (b v : ver),
+    lies_below vs deep /\ asc snaps /\ top vs <= s /\
+    newest_barrier vs s = Some b /\ is_rep (vkind b) = true /\ find is_barrier vs = Some b /\
+    In v (history_deeper (compact_key false true retention now snaps vs) deep s) /\
+    ~ In v (history_deeper vs deep s).
+
+(* regression record for the decision between the two repairs (CompactKeyMid.v): it violates
+   compact_key_history_deeper_hard_stmt (already for a reader above everything) *)
+Definition compact_key_mid_history_deeper_hard_fails_stmt : Prop :=
+  exists (retention now : N) (snaps : list N) (vs deep : list ver) (s : N) (b v : ver),
+    lies_below vs deep /\ asc snaps /\ top vs <= s /\
+    newest_barrier vs s = Some b /\ is_hard (vkind b) = true /\
+    In v (history_deeper (compact_key_mid false true retention now snaps vs) deep s) /\
+    ~ In v (history_deeper vs deep s).
